@@ -11,6 +11,14 @@ NOTE = ("Trusted: CrossHair 0.0.110 + z3, the overlay venv, the environment stub
         "isinstance shim), the harness oracles under /verif/vf. Grammars are a fixed corpus (classes cannot be symbolic); all bounds are in evidence.assumptions.")
 
 CLAIMED = {
+    "C03": dict(
+        text="For each corpus grammar the minimum depth m is computed by an independent least-fixpoint oracle; for every max_depth in {m, m+1, m+2} "
+             "(thorough m+3) the real deciders (grow, full, PI-grow, dSGE), used directly, through GE/SGE mapping and after mutation/crossover, are "
+             "executed with all draws/genes symbolic: construction and creation must succeed on EVERY path and an independent depth oracle must stay "
+             "<= max_depth; for m-1 a GeneticEngineError must be raised before any node is constructed (constructor-call counter). Path trees are "
+             "exhausted. Bounds: corpus grammars f0,f1,f3,f4(+f3b), limits up to m+3, one or two variation steps.",
+        design_ref="DESIGN.md section 4 (C03)",
+    ),
     "C02": dict(
         text="(a) generator/validator agreement per shipped metahandler with the refinement PARAMETERS themselves symbolic (integer bounds, sizes, "
              "element lists) and every draw symbolic: generate() then an independent documented predicate and the handler's own validate() must hold on "
